@@ -305,7 +305,8 @@ def replay (cfg : Cfg) (c : Case) : KRes := Id.run do
               | some t =>
                 let acked := wsub p.seg.ack t.sndUna
                 let lim := t.sendBuf.length + (if t.finSeq.isSome then 1 else 0)
-                if t.state != .closed && !t.isHandshake && 0 < acked && acked > t.inFlight && acked ≤ lim then
+                if t.state != .closed && !t.isHandshake && 0 < acked && acked > t.inFlight && acked ≤ lim &&
+                    !(cfg.fixSndMax && acked ≤ wsub t.sndMax t.sndUna) then
                   ackIgnored := true
               | none => pure ()
             | none => pure ()
@@ -342,11 +343,12 @@ def replay (cfg : Cfg) (c : Case) : KRes := Id.run do
 /-- Every non-empty combination of the repair flags (the implementation may carry any subset of
     the repairs; DESIGN 1.3). -/
 def fixedVariants (cfg : Cfg) : List Cfg :=
-  (List.range 256).tail.map fun m =>
+  (List.range 512).tail.map fun m =>
     { cfg with fixReapOrphan := m % 2 == 1, fixReack := (m / 2) % 2 == 1,
                fixWinUpdate := (m / 4) % 2 == 1, fixHsReset := (m / 8) % 2 == 1,
                fixRstAfterClose := (m / 16) % 2 == 1, fixOrphanTimeout := (m / 32) % 2 == 1,
-               fixQuietClose := (m / 64) % 2 == 1, fixSynWindow := (m / 128) % 2 == 1 }
+               fixQuietClose := (m / 64) % 2 == 1, fixSynWindow := (m / 128) % 2 == 1,
+               fixSndMax := (m / 256) % 2 == 1 }
 
 /-! ### O: oracles on the implementation's observations -/
 
@@ -588,7 +590,7 @@ def withFlags (cfg src : Cfg) : Cfg :=
   { cfg with fixReapOrphan := src.fixReapOrphan, fixReack := src.fixReack, fixWinUpdate := src.fixWinUpdate,
              fixHsReset := src.fixHsReset, fixRstAfterClose := src.fixRstAfterClose,
              fixOrphanTimeout := src.fixOrphanTimeout, fixQuietClose := src.fixQuietClose,
-             fixSynWindow := src.fixSynWindow }
+             fixSynWindow := src.fixSynWindow, fixSndMax := src.fixSndMax }
 
 def processCase (prop : String) (c : Case) (memo : IO.Ref (Option Cfg)) : IO (Bool × Bool) := do
   let k0 : KRes := if c.nok then { ok := true } else replay c.cfg c
@@ -596,8 +598,11 @@ def processCase (prop : String) (c : Case) (memo : IO.Ref (Option Cfg)) : IO (Bo
   -- previous case first
   let last ← memo.get
   let committed : Cfg := { c.cfg with fixReapOrphan := true, fixReack := true, fixWinUpdate := true, fixHsReset := true,
-                                      fixRstAfterClose := true, fixQuietClose := true, fixSynWindow := true }
-  let cands : List Cfg := [committed] ++ (match last with | some f => [withFlags c.cfg f] | none => []) ++ fixedVariants c.cfg
+                                      fixRstAfterClose := true, fixQuietClose := true, fixSynWindow := true,
+                                      fixSndMax := true }
+  -- the tree before the SND.MAX repair (F-C06-8), kept so that older trees still match quickly
+  let committedOld : Cfg := { committed with fixSndMax := false }
+  let cands : List Cfg := [committed, committedOld] ++ (match last with | some f => [withFlags c.cfg f] | none => []) ++ fixedVariants c.cfg
   let found := if c.nok || k0.ok then none
     else cands.findSome? fun cfg => let r := replay cfg c; if r.ok then some (cfg, r) else none
   if let some (cfg, _) := found then memo.set (some cfg)
